@@ -729,6 +729,16 @@ MUTANTS = [
                         return Err(Error::Internal);
                     };
                     let mut chunk_len = usize::from(segment_len);""")]},
+    {"id": "c17-parent-any-junction", "property": "C17", "expect": "C17.parent|nearest-junction-with-free-port",
+     "edits": [("src/dc.rs", """                .find(|subdevice| {
+                    subdevice.ports.topology().is_junction()
+                        && subdevice.ports.has_free_downstream_port()
+                })""", """                .find(|subdevice| subdevice.ports.topology().is_junction())""")]},
+    {"id": "c17-parent-forward-search", "property": "C17", "expect": "C17.parent|nearest-junction-with-free-port",
+     "edits": [("src/dc.rs", "    let mut parents_it = parents.iter().rev();\n\n    if let Some(parent) = parents_it.next() {", "    if let Some((parent, ancestors)) = parents.split_last() {\n        let mut parents_it = ancestors.iter();")]},
+    {"id": "n-c17-parent-rfind", "property": "C17", "neutral": True,
+     "edits": [("src/dc.rs", "    let mut parents_it = parents.iter().rev();\n\n    if let Some(parent) = parents_it.next() {", "    if let Some((parent, ancestors)) = parents.split_last() {"),
+               ("src/dc.rs", "            let split_point = parents_it\n                .find(|subdevice| {", "            let split_point = ancestors\n                .iter()\n                .rfind(|subdevice| {")]},
     {"id": "n-c17-rename-fold", "property": "C17", "neutral": True,
      "edits": [("src/subdevice/ports.rs", ".fold(0u32, |total, delta| total.saturating_add(delta))", ".fold(0u32, |sum_so_far, d| sum_so_far.saturating_add(d))")]},
     {"id": "n-c18-reorder-range-checks", "property": "C18", "neutral": True,
